@@ -12,7 +12,7 @@ from .tree import canon_param
 
 # R10: property name -> value kind the RFC assigns (RFC 5545 3.7/3.8, RFC 9074 ACKNOWLEDGED)
 KIND = {}
-for _n in ("CALSCALE METHOD PRODID VERSION CLASS COMMENT DESCRIPTION LOCATION RESOURCES STATUS SUMMARY TRANSP TZID TZNAME CONTACT "
+for _n in ("CALSCALE METHOD PRODID VERSION CLASS COMMENT DESCRIPTION LOCATION STATUS SUMMARY TRANSP TZID TZNAME CONTACT "
            "RELATED-TO UID ACTION REQUEST-STATUS").split():
     KIND[_n] = "text"
 for _n in "ATTACH TZURL URL".split():
@@ -29,7 +29,9 @@ for _n in "TZOFFSETFROM TZOFFSETTO".split():
     KIND[_n] = "utcoffset"
 for _n in "ATTENDEE ORGANIZER".split():
     KIND[_n] = "caladdress"
-KIND.update({"CATEGORIES": "categories", "GEO": "geo", "FREEBUSY": "freebusy"})
+KIND.update({"CATEGORIES": "categories", "GEO": "geo", "FREEBUSY": "freebusy", "RESOURCES": "textlist"})
+# RFC 5545 3.8.1.10: RESOURCES is a COMMA-separated list of TEXT values.  The library registers it as a single TEXT
+# (known finding multivalue-text-collapsed); ``resources_as_list=False`` gives that reading for classifiers.
 DEFAULT_TYPE = {"ddd": None}
 TZID_NAMES = ("DTSTART", "DTEND", "RECURRENCE-ID", "DUE", "RDATE", "EXDATE", "FREEBUSY")
 LENIENT = ("VEVENT",)
@@ -160,10 +162,18 @@ def recur_obs(text, zones):
     return tuple(sorted(out))
 
 
-def decode(name, params, value, zones):
+def decode(name, params, value, zones, resources_as_list=True):
     """-> list of value observations (kind, canonical, params-obs) for one content line"""
     pobs = tuple(sorted(params.items()))
     kind = KIND.get(name, "text")
+    if kind == "textlist":
+        if not resources_as_list:
+            kind = "text"
+        else:
+            items = R1.split_list(value)
+            if len(items) == 1:
+                return [("text", R1.decode(value), pobs)]          # one value: indistinguishable from a single TEXT
+            return [("textlist", tuple(R1.decode(x) for x in items), pobs)]
     tzid = params.get("TZID") if name in TZID_NAMES else None
     if isinstance(tzid, tuple):
         tzid = None
@@ -204,7 +214,7 @@ def unfold_lines(text):
     return [l for l in re.sub(r"\r\n[ \t]", "", text).split("\r\n") if l]
 
 
-def parse(text, provider="zoneinfo", splitter=split_r2, two_pass=True, _zones=None):
+def parse(text, provider="zoneinfo", splitter=split_r2, two_pass=True, _zones=None, resources_as_list=True):
     """-> list of top-level component observations; raises RefReject when a conforming reader must reject.
 
     two_pass=True is the RFC reading (a VTIMEZONE defines its TZID for the whole object, wherever it stands);
@@ -213,7 +223,7 @@ def parse(text, provider="zoneinfo", splitter=split_r2, two_pass=True, _zones=No
     zones = _zones or Zones(provider)
     if two_pass and _zones is None:
         try:
-            parse(text, provider, splitter, False, zones)      # first pass: collect the zone definitions
+            parse(text, provider, splitter, False, zones, resources_as_list)      # first pass: collect the zone definitions
         except RefReject:
             pass
     stack, done = [], []
@@ -243,7 +253,7 @@ def parse(text, provider="zoneinfo", splitter=split_r2, two_pass=True, _zones=No
             if not stack:
                 raise RefReject("property outside a component")
             try:
-                vals_ = decode(uname, params, value, zones)
+                vals_ = decode(uname, params, value, zones, resources_as_list)
             except (RefReject, ValueError, KeyError) as e:
                 if stack[-1]["name"] in LENIENT:
                     continue
